@@ -395,3 +395,70 @@ T('e_add_zip_count_positions', ['C11'],
 T('e_add_enumerate_from_index', ['C11'],
   (A, '        for br in bound_routes:\n            self.routes.insert(index, br)\n            index += 1\n',
       '        for position, br in enumerate(bound_routes, index):\n            self.routes.insert(position, br)\n'))
+
+# ---- request-time ownership (R11.a): per-request objects keep containers of their own; nothing on the request path
+# ---- writes a Route / BoundRoute / Application
+_DS_INIT = '        self.allowed_methods = set()\n'
+_DS_UPDATE = '        if methods:\n            self.allowed_methods.update(methods)\n'
+_DISPATCH_UPDATE = '                dispatch_state.update_methods(route.methods)\n'
+B('e_ds_adopts_first_method_set_then_ior', ['C11'], 'R11.a',
+  (A, _DS_INIT, '        self.allowed_methods = None\n'),
+  (A, _DS_UPDATE, '        if not methods:\n            return\n        if not self.allowed_methods:\n            self.allowed_methods = methods\n'
+                  '        else:\n            self.allowed_methods |= methods\n'))
+B('e_ds_method_set_adopted_by_dispatch', ['C11'], 'R11.a',
+  (A, _DISPATCH_UPDATE, '                if not dispatch_state.allowed_methods:\n                    dispatch_state.allowed_methods = route.methods\n'
+                        '                else:\n                    dispatch_state.update_methods(route.methods)\n'))
+B('e_ds_adopts_set_handed_out_by_route_accessor', ['C11'], 'R11.a',
+  (A, _DS_UPDATE, '        if methods and not self.allowed_methods:\n            self.allowed_methods = methods\n'
+                  '        elif methods:\n            self.allowed_methods.update(methods)\n'),
+  (A, _DISPATCH_UPDATE, '                dispatch_state.update_methods(route.get_methods())\n'),
+  (R, '    def match_method(self, method):\n', '    def get_methods(self):\n        return self.methods\n\n    def match_method(self, method):\n'))
+B('e_ds_mutable_default_shared_by_all_requests', ['C11'], 'R11.a',
+  (A, '    def __init__(self):\n        self.exceptions = []\n        self.allowed_methods = set()\n',
+      '    def __init__(self, allowed_methods=set()):\n        self.exceptions = []\n        self.allowed_methods = allowed_methods\n'))
+B('e_ds_seeded_with_null_route_methods', ['C11'], 'R11.a',
+  (A, '        dispatch_state = DispatchState()\n        err_handler = self.error_handler\n',
+      '        err_handler = self.error_handler\n        dispatch_state = DispatchState(self._null_route.methods)\n'),
+  (A, '    def __init__(self):\n        self.exceptions = []\n        self.allowed_methods = set()\n',
+      '    def __init__(self, base_methods=None):\n        self.exceptions = []\n        self.allowed_methods = base_methods if base_methods is not None else set()\n'))
+B('e_dispatch_unions_into_local_alias_of_route_methods', ['C11'], 'R11.a',
+  (A, _DISPATCH_UPDATE, '                seen_methods = route.methods\n                seen_methods |= dispatch_state.allowed_methods\n'
+                        '                dispatch_state.allowed_methods = set(seen_methods)\n'))
+B('e_match_result_stored_on_the_unbound_route', ['C11'], 'R11.a',
+  (R, '            return None\n        return ret\n\n    def match_method', '            return None\n        self.unbound_route.last_params = ret\n        return ret\n\n    def match_method'))
+T('e_ds_lazy_method_set_copied_on_adoption', ['C11'],
+  (A, _DS_INIT, '        self.allowed_methods = None\n'),
+  (A, _DS_UPDATE, '        if not methods:\n            return\n        if self.allowed_methods is None:\n            self.allowed_methods = set(methods)\n'
+                  '        else:\n            self.allowed_methods.update(methods)\n'))
+T('e_ds_own_set_ior', ['C11'],
+  (A, _DS_UPDATE, '        if methods:\n            self.allowed_methods |= set(methods)\n'))
+T('e_ds_own_set_rebound_to_union', ['C11'],
+  (A, _DS_UPDATE, '        if methods:\n            self.allowed_methods = self.allowed_methods | set(methods)\n'))
+T('e_ds_own_set_through_local_alias', ['C11'],
+  (A, _DS_UPDATE, '        allowed = self.allowed_methods\n        if methods:\n            allowed.update(methods)\n'))
+T('e_ds_ctor_seed_copied', ['C11'],
+  (A, '    def __init__(self):\n        self.exceptions = []\n        self.allowed_methods = set()\n',
+      '    def __init__(self, allowed_methods=None):\n        self.exceptions = []\n        self.allowed_methods = set(allowed_methods or ())\n'))
+T('e_dispatch_route_methods_named_temporary', ['C11'],
+  (A, _DISPATCH_UPDATE, '                route_methods = route.methods\n                dispatch_state.update_methods(route_methods)\n'))
+T('e_dispatch_union_into_own_copy_of_route_methods', ['C11'],
+  (A, _DISPATCH_UPDATE, '                seen_methods = set(route.methods)\n                seen_methods |= dispatch_state.allowed_methods\n'
+                        '                dispatch_state.allowed_methods = seen_methods\n'))
+T('e_ds_fields_rebound_never_updated_in_place', ['C11'],
+  (A, '        self.attempted_routes.append(route)\n', '        self.attempted_routes = self.attempted_routes + [route]\n'),
+  (A, '        self.exceptions.append(exception)\n', '        self.exceptions = self.exceptions + [exception]\n'),
+  (A, _DS_UPDATE, '        if methods:\n            self.allowed_methods = self.allowed_methods | set(methods)\n'))
+B('e_ds_rebound_to_route_set_then_updated_elsewhere', ['C11'], 'R11.a',
+  (A, _DS_UPDATE, '        if methods:\n            self.allowed_methods = self.allowed_methods or methods\n            self.allowed_methods.update(methods)\n'))
+B('e_ds_adoption_by_setattr', ['C11'], 'R11.a',
+  (A, _DS_INIT, '        self.allowed_methods = None\n'),
+  (A, _DS_UPDATE, "        if methods and self.allowed_methods is None:\n            setattr(self, 'allowed_methods', methods)\n"
+                  '        elif methods:\n            self.allowed_methods.update(methods)\n'))
+B('e_ds_adoption_in_tuple_assignment', ['C11'], 'R11.a',
+  (A, _DS_INIT, '        self.allowed_methods = None\n        self.mismatches = 0\n'),
+  (A, _DS_UPDATE, '        if methods and self.allowed_methods is None:\n            self.allowed_methods, self.mismatches = methods, 1\n'
+                  '        elif methods:\n            self.allowed_methods.update(methods)\n'))
+B('e_ds_adoption_condexpr_named_temporary', ['C11'], 'R11.a',
+  (A, _DS_INIT, '        self.allowed_methods = None\n'),
+  (A, _DS_UPDATE, '        if not methods:\n            return\n        current = self.allowed_methods\n'
+                  '        merged = methods if current is None else current\n        merged.update(methods)\n        self.allowed_methods = merged\n'))
